@@ -57,9 +57,12 @@ fn c24_program(idx: usize, dsl: &str, o: &mut String) {
     writeln!(o, "}}").unwrap();
 }
 
-fn c26_program(idx: usize, dsl: &str, o: &mut String) {
+/// loop language (C26, and the lines of c24.txt that contain a loop): C24 stages + loop blocks + stateful operators
+///  Us/Ut unique, Es/Et enumerate (inline);  Fs<i>/Ft<i> fold, Rs<i>/Rt<i> reduce, Gs<i>/Gt<i> fold_keyed (key x % 2) on a
+///  tee branch recorded at tap i (fold_keyed as k * 100000 + sum); the pipeline continues from the tee
+fn c26_program(prefix: &str, idx: usize, dsl: &str, o: &mut String) {
     let toks: Vec<&str> = dsl.split(',').collect();
-    writeln!(o, "pub fn c26_prog_{idx}(rx: RxStream, rx2: RxStream, out: Out) -> DfirErased {{").unwrap();
+    writeln!(o, "pub fn {prefix}_prog_{idx}(rx: RxStream, rx2: RxStream, out: Out) -> DfirErased {{").unwrap();
     for (k, _) in toks.iter().enumerate() {
         writeln!(o, "    #[allow(unused_variables)] let out{k} = out.clone();").unwrap();
     }
@@ -125,6 +128,32 @@ fn c26_program(idx: usize, dsl: &str, o: &mut String) {
                     "        {next} = {cur} -> inspect(|x: &i64| out{k}.borrow_mut().push(({arg}usize, context.current_tick().0, *x)));"
                 )
                 .unwrap();
+                cur = next;
+            }
+            "U" | "E" => {
+                let p = if arg == "s" { "'static" } else { "'tick" };
+                if kind == "U" {
+                    writeln!(o, "        {next} = {cur} -> unique::<{p}>();").unwrap();
+                } else {
+                    writeln!(o, "        {next} = {cur} -> enumerate::<{p}>() -> map(|(i, x): (usize, i64)| x + 100 * (i as i64));").unwrap();
+                }
+                cur = next;
+            }
+            "F" | "R" | "G" => {
+                let (p, tap) = arg.split_at(1);
+                let p = if p == "s" { "'static" } else { "'tick" };
+                writeln!(o, "        w{k} = {cur} -> tee();").unwrap();
+                let rec = format!("out{k}.borrow_mut().push(({tap}usize, context.current_tick().0, s))");
+                match kind {
+                    "F" => writeln!(o, "        w{k} -> fold::<{p}>(|| 0i64, |a: &mut i64, x: i64| *a += x) -> for_each(|s: i64| {rec});").unwrap(),
+                    "R" => writeln!(o, "        w{k} -> reduce::<{p}>(|a: &mut i64, x: i64| *a += x) -> for_each(|s: i64| {rec});").unwrap(),
+                    _ => writeln!(
+                        o,
+                        "        w{k} -> map(|x: i64| (x % 2, x)) -> fold_keyed::<{p}>(|| 0i64, |a: &mut i64, x: i64| *a += x) -> map(|(k, v): (i64, i64)| k * 100000 + v) -> for_each(|s: i64| {rec});"
+                    )
+                    .unwrap(),
+                }
+                writeln!(o, "        {next} = w{k} -> identity();").unwrap();
                 cur = next;
             }
             "C" | "K" => {
@@ -226,13 +255,24 @@ fn main() {
     println!("cargo:rerun-if-changed=build.rs");
     let out_dir = PathBuf::from(env::var("OUT_DIR").unwrap());
     let mut o = String::new();
-    let progs = lines("programs/c24.txt");
+    // c24.txt: flat pipelines (C24 stage language) and, on the lines that contain a loop block, the loop language
+    let all = lines("programs/c24.txt");
+    let progs: Vec<&String> = all.iter().filter(|l| !l.contains('[')).collect();
+    let lprogs: Vec<&String> = all.iter().filter(|l| l.contains('[')).collect();
     for (i, p) in progs.iter().enumerate() {
         c24_program(i, p, &mut o);
+    }
+    for (i, p) in lprogs.iter().enumerate() {
+        c26_program("c24l", i, p, &mut o);
     }
     writeln!(o, "pub static C24_PROGS: &[(&str, fn(RxStream, Out) -> DfirErased)] = &[").unwrap();
     for (i, p) in progs.iter().enumerate() {
         writeln!(o, "    ({p:?}, c24_prog_{i}),").unwrap();
+    }
+    writeln!(o, "];").unwrap();
+    writeln!(o, "pub static C24L_PROGS: &[(&str, fn(RxStream, RxStream, Out) -> DfirErased)] = &[").unwrap();
+    for (i, p) in lprogs.iter().enumerate() {
+        writeln!(o, "    ({p:?}, c24l_prog_{i}),").unwrap();
     }
     writeln!(o, "];").unwrap();
     fs::write(out_dir.join("c24_progs.rs"), o).unwrap();
@@ -240,7 +280,7 @@ fn main() {
     let mut o = String::new();
     let progs = lines("programs/c26.txt");
     for (i, p) in progs.iter().enumerate() {
-        c26_program(i, p, &mut o);
+        c26_program("c26", i, p, &mut o);
     }
     writeln!(o, "pub static C26_PROGS: &[(&str, fn(RxStream, RxStream, Out) -> DfirErased)] = &[").unwrap();
     for (i, p) in progs.iter().enumerate() {
